@@ -10,6 +10,7 @@
 -/
 import Tranp.Lemmas.Infer
 import Tranp.Lemmas.InferScope
+import Tranp.Lemmas.InferLambda
 
 namespace Tranp.C03
 open Tranp Tranp.Infer Tranp.Generated
@@ -463,6 +464,89 @@ example :
     inferT [] Γ (.listComp (.var ['z']) [['z']] (.var ['x']) .true_) = .ok (.list .int) ∧
     inferT [] Γ (.tern .none_ (.var ['p']) (.var ['w'])) = inferT [] Γ (.var ['x']) ∧
     inferT [] Γ (.index (.tern .none_ (.var ['p']) (.var ['w'])) (.int 0)) = .ok .int := by
+  decide +kernel
+
+/-! ## lambda parameters -/
+
+/-- What a declared callback type gives (`ResolveUnknown.resolve_lambda_param`): for `C = Callable[[A…], R]` the `i`-th parameter
+    of a lambda is `A i` when the lambda is assigned under the annotation `C`, returned from a function declared `-> C`, or passed
+    where the callee's parameter — of a function / closure (`calls`) or of a method / constructor (`sig`, `self` first) — is `C`,
+    `C | None` or `None | C` (the optional is unwrapped, whichever side `None` stands on). -/
+theorem lambda_param_callable (As : List Ty) (R : Ty) (i : Nat) (hi : i < As.length) (calls sig : Tys) (k : Nat) (p : Ty)
+    (hp : p = callableTy As R ∨ p = .union (.cons (callableTy As R) (.cons .none .nil)) ∨
+      p = .union (.cons .none (.cons (callableTy As R) .nil))) :
+    lambdaParam (.annoAssign (callableTy As R)) i = .ok As[i] ∧
+    lambdaParam (.ret (callableTy As R)) i = .ok As[i] ∧
+    (calls.get? k = some p → lambdaParam (.argFunction calls k) i = .ok As[i]) ∧
+    (sig.get? (k + 1) = some p → lambdaParam (.argMethod sig k) i = .ok As[i]) := by
+  have hs : stripNullable p = callableTy As R := by
+    obtain ⟨h1, h2⟩ := nullable_order_irrelevant (callableTy As R) (callable_not_None As R)
+    rcases hp with rfl | rfl | rfl
+    · rfl
+    · exact h1
+    · exact h2
+  refine ⟨attrAt_callable As R hi, attrAt_callable As R hi, ?_, ?_⟩
+  · intro h; simp only [lambdaParam, h, hs, attrAt_callable As R hi]
+  · intro h; simp only [lambdaParam, h, hs, attrAt_callable As R hi]
+
+/-- `run(n: int, cb: None | Callable[[int, str], float])`, `run(3, lambda a, b: …)`: `a : int`, `b : str`; a surplus third parameter
+    is given the attribute that follows — the callback's RETURN type (CPython cannot call such a lambda with two arguments) —, a
+    fourth one has no type (IndexError) -/
+example :
+    let C := callableTy [.int, .str] .float
+    let calls : Tys := .cons .int (.cons (.union (.cons .none (.cons C .nil))) (.cons .float .nil))
+    lamEnv (.argFunction calls 1) [['a'], ['b']] = .ok [(['a'], .int), (['b'], .str)] ∧
+    lamEnv (.argFunction calls 1) [['a'], ['b'], ['c']] = .ok [(['a'], .int), (['b'], .str), (['c'], .float)] ∧
+    lamEnv (.argFunction calls 1) [['a'], ['b'], ['c'], ['d']] = .error .indexErr ∧
+    lamEnv (.argMethod (.cons (.cls ['B'] .nil) calls) 1) [['a']] = .ok [(['a'], .int)] := by
+  decide +kernel
+
+/-- `sound_lambda_param`: when the lambda is applied to values of the types its parameters were given (the callee's obligation for a
+    callback declared `Callable[[A…], R]`; discharged for the immediate call by `sound_lambda_immediate`), the body runs in an
+    environment that conforms to the one it is typed in, so the type inferred for the body denotes the value the lambda returns,
+    and the lambda itself is typed `Callable<parameter types…, that type>` (`on_lambda`). -/
+theorem sound_lambda_param {ct : ClassTable} {W : World} {Γ Γ' : Env} {ρ : VEnv} {ctx : LamCtx} {vars : List Str} {vs : List Val}
+    {body : Expr} {v : Val} (hW : WorldConf ct W) (henv : EnvConf ct ρ Γ) (hΓ' : lamEnv ctx vars = .ok Γ')
+    (hargs : ArgsConf ct vs Γ') (hcore : Core ct (Γ' ++ Γ) body) (hev : eval W (bindArgs Γ' vs ++ ρ) body = .ok v) :
+    EnvConf ct (bindArgs Γ' vs ++ ρ) (Γ' ++ Γ) ∧
+    ∃ T, lambdaBody ct Γ ctx vars body = .ok T ∧ Conf ct v T ∧
+      lambdaType ct Γ ctx vars body = .ok (callableTy (Γ'.map (·.2)) T) := by
+  have henv' := hargs.envConf henv
+  obtain ⟨T, hT, hc⟩ := sound_conf hW hcore henv' hev
+  have hTT : inferT ct (Γ' ++ Γ) body = .ok T := by unfold inferT; rw [hT false]
+  refine ⟨henv', T, ?_, hc, ?_⟩
+  · simp only [lambdaBody, hΓ', hTT]
+  · simp only [lambdaType, hΓ', hTT, callableTy]
+
+/-- `sound_lambda_immediate`: `(lambda x…: body)(args…)` needs no assumption about any callee — the parameters are typed by the
+    inferred types of the arguments, the argument values conform to them (`sound_conf`), hence the body's inferred type denotes the
+    value of the whole call. -/
+theorem sound_lambda_immediate {ct : ClassTable} {W : World} {Γ : Env} {ρ : VEnv} {vars : List Str} {args : List Expr}
+    {Ts : List Ty} {vs : List Val} (hW : WorldConf ct W) (henv : EnvConf ct ρ Γ) (hargs : ArgsEval ct W Γ ρ args Ts vs)
+    (hlen : vars.length = args.length) :
+    ∃ Γ', lamEnv (.immediate Ts) vars = .ok Γ' ∧ Γ'.map (·.2) = Ts ∧ ArgsConf ct vs Γ' ∧
+      ∀ body v, Core ct (Γ' ++ Γ) body → eval W (bindArgs Γ' vs ++ ρ) body = .ok v →
+        ∃ T, lambdaBody ct Γ (.immediate Ts) vars body = .ok T ∧ Conf ct v T := by
+  obtain ⟨hl1, _⟩ := hargs.length
+  obtain ⟨Γ', h1, h2, _⟩ := lamEnvFrom_immediate Ts vars 0 (by omega)
+  have h2' : Γ'.map (·.2) = Ts := by
+    rw [h2, List.drop_zero, List.take_of_length_le (by omega)]
+  have hconf : ArgsConf ct vs Γ' := argsConf_of_each (by rw [h2']; exact hargs.conf hW henv)
+  refine ⟨Γ', h1, h2', hconf, ?_⟩
+  intro body v hcore hev
+  obtain ⟨_, T, hb, hc, _⟩ := sound_lambda_param hW henv h1 hconf hcore hev
+  exact ⟨T, hb, hc⟩
+
+/-- non-vacuity: `(lambda i, t: t * (i + 1))(2, s)` with `s = 'ab'`: the parameters are `int`, `str`, the call is a `str` -/
+example :
+    let Γ : Env := [(['s'], .str)]
+    let body : Expr := .bin (.var ['t']) (.cons .mul (.group (.bin (.var ['i']) (.cons .add (.int 1) .nil))) .nil)
+    lamEnv (.immediate [.int, .str]) [['i'], ['t']] = .ok [(['i'], .int), (['t'], .str)] ∧
+    lambdaBody [] Γ (.immediate [.int, .str]) [['i'], ['t']] body = .ok .str ∧
+    lambdaType [] Γ (.immediate [.int, .str]) [['i'], ['t']] body = .ok (callableTy [.int, .str] .str) ∧
+    wt [] [(['i'], .int), (['t'], .str), (['s'], .str)] body = true ∧
+    (eval World.none (bindArgs [(['i'], .int), (['t'], .str)] [.int 2, .str ['a', 'b']] ++ [(['s'], .str ['a', 'b'])]) body).map typeOf
+      = .ok .str := by
   decide +kernel
 
 end Tranp.C03
